@@ -47,6 +47,7 @@ MCMarker(p) == "mk"
 MCSentinel(p) == <<"sentinel">>
 MCNoSuchParam(p) == "minus20"
 MCOne(p) == "one"
+MCDispAccept(p, v, s) == s = "number"
 MCInitDflt == [p \in MCPrec |-> [n \in {"sa", "sv", "fx", "fu"} |->
                  [par |-> [k \in (CASE n = "sa" -> {"a", "b"} [] n = "sv" -> {"c"} [] OTHER -> {}) |-> "v0"],
                   vec |-> [k \in (IF n = "sv" THEN {"w"} ELSE {}) |-> <<"v0">>]]]]
@@ -56,7 +57,7 @@ MCArgsRegular(sol, fn, sig, args) == TRUE
 MCEvalAccept(p, sol, par, vec, fn, sig, args, cb, ret) == ret = EvalTerm(p, sol, par, vec, fn, sig, args)
 
 M == INSTANCE Masa WITH Prec <- MCPrec, Catalog <- MCCatalog, Build <- MCBuild,
-                        Marker <- MCMarker, Sentinel <- MCSentinel, NoSuchParam <- MCNoSuchParam, One <- MCOne,
+                        Marker <- MCMarker, Sentinel <- MCSentinel, NoSuchParam <- MCNoSuchParam, One <- MCOne, DispAccept <- MCDispAccept,
                         InitDflt <- MCInitDflt, UseMemo <- FALSE, EvalAccept <- MCEvalAccept, ArgsRegular <- MCArgsRegular
 
 vars == <<reg, sel, live, status, dflt, memo, act>>
